@@ -721,6 +721,19 @@ class Sym:
         r = self.whole_range(a[0][1], b[0][1])
         if r is None:
             return None
+        # a loop whose body reads something the step changes (a running index next to the iterator) is a positional walk, not a
+        # search for an element with a property: not this form
+        stepped = set()
+        for n in _walk(s.get('inc')):
+            tgt = None
+            if n.get('k') == 'binop' and n.get('op', '').endswith('=') and n.get('op') not in ('==', '!=', '<=', '>='):
+                tgt = strip_casts(n.get('l') or {})
+            elif n.get('k') == 'unop' and ('++' in n.get('op', '') or '--' in n.get('op', '')):
+                tgt = strip_casts(n.get('e') or {})
+            if tgt and tgt.get('k') == 'ref' and tgt.get('kind') == 'local' and not (tgt.get('id') == var['id'] and tgt.get('name') == var['name']):
+                stepped.add((tgt.get('id'), tgt.get('name')))
+        if any(n.get('k') == 'ref' and n.get('kind') == 'local' and (n.get('id'), n.get('name')) in stepped for n in _walk(s.get('b'))):
+            return None
         pristine = st.fork()
         elem = ('elem', r)
         s1 = st.fork()
